@@ -24,3 +24,5 @@ open GoSQLXModel
 #print axioms Lex.seq_exp
 #print axioms Lex.fixL002_keeps_tokens
 #print axioms Props.C17.l002_keeps_tokens
+#print axioms Lex.fixL001_then_L002_keeps_tokens
+#print axioms Props.C17.l001_then_l002_keep_tokens
